@@ -157,6 +157,11 @@ def run(prop, tier):
     leaks = [r for r in recs if r["ev"] == "leaks"][0]["table"]
     exps = [r["e"] for r in recs if r["ev"] == "exp"]
     batches = [r for r in recs if r["ev"] == "batch"]
+    # every completed forced-overlap experiment is also a batch of two for the linearisation search
+    for i, e in enumerate(exps):
+        if e.get("labA") and e.get("labB") and not e["hang"]:
+            batches.append({"ev": "batch", "bid": "x%d_%s_%s_%d" % (i, e["A"], e["B"], e["hold"]), "init": e["init"], "ops": [e["labA"], e["labB"]],
+                            "final": e["final"], "hang": False, "overlaps": 0, "forced": True})
     m = re.search(r"VERIF-UNIVERSE (.*)", out)
     universe = json.loads(m.group(1))
 
